@@ -627,6 +627,13 @@ package state
 // channel, and every other tracked nick shares at least one channel
 //@ pred chanHasMe(st *stateTracker) := forall k int :: has(dom(st.chans), k) ==> has(vals(st.chans)[k].nicks, st.me)
 //@ pred nickShares(st *stateTracker) := forall k int :: has(dom(st.nicks), k) && vals(st.nicks)[k] != st.me ==> len(vals(st.nicks)[k].chans) > 0
+//@ pred chanHasMeX(st *stateTracker, c string) := forall k int :: has(dom(st.chans), k) && k != sid(c) ==> has(vals(st.chans)[k].nicks, st.me)
+//@ pred nickSharesX(st *stateTracker, n string) := forall k int :: has(dom(st.nicks), k) && vals(st.nicks)[k] != st.me && k != sid(n) ==> len(vals(st.nicks)[k].chans) > 0
+// the state just before the Associate(c, n) that closes a join: everything is in order except
+// possibly channel c (then the joiner is the client, not yet on it) and nick n (then c is tracked)
+//@ pred joinPending(st *stateTracker, c string, n string) := st != nil && held(st.mu) == 0 && RI(st) && chanHasMeX(st, c) && nickSharesX(st, n)
+//@     && (has(st.chans, c) ==> has(st.chans[c].nicks, st.me) || (n == st.me.nick && !has(st.me.chans, st.chans[c])))
+//@     && (has(st.nicks, n) && st.nicks[n] != st.me ==> len(st.nicks[n].chans) > 0 || has(st.chans, c))
 //@ pred Safe13(st *stateTracker) := st != nil && held(st.mu) == 0 && RI(st) && chanHasMe(st) && nickShares(st)
 //@ pred RIn(st *stateTracker) := HI() && trkShape(st) && LT(st) && sepIdx(st)
 //@ pred RI(st *stateTracker) := RIn(st) && LT2(st)
